@@ -75,9 +75,10 @@ PlaceCandidates(pc) == {<<Row[i].file, Row[i].line>> : i \in PlaceCandRows(pc)}
 \* (classification only) end_sequence rows of OTHER sequences that lie between the covering row's
 \* address and pc: an address-sorted vector that keeps end_sequence rows may present one of them as
 \* "the row before pc".  Never part of an expected answer.
+EsRows == TLCEval({k \in RowIdx : Row[k].es})
 EndSeqShadowing(pc) ==
   {<<Row[j].file, Row[j].line>> :
-     j \in {k \in RowIdx : Row[k].es /\ Row[k].addr <= pc /\ \E i \in PlaceRows(pc) : Row[i].addr <= Row[k].addr}}
+     j \in {k \in EsRows : Row[k].addr <= pc /\ \E i \in PlaceRows(pc) : Row[i].addr <= Row[k].addr}}
 
 InRanges(rs, pc) == \E r \in rs : r[1] <= pc /\ pc < r[2]
 InFunc(f, pc)    == InRanges(Fn[f].ranges, pc)
